@@ -59,4 +59,110 @@ def codec_check(chk, lean_ok):
     return cov
 
 
-SPECIAL = {"codec": codec_check}
+def abi_check(chk, lean_ok):
+    """C15: translator tables (already regenerated + proved in chk.lean()), exported symbols of the
+    built cdylib, sizeof/offsetof and constants seen by a C compiler, ownership under valgrind."""
+    cov = {}
+    libdir = os.path.join(HARNESS_DIR, "target-lib")
+    header = "/repo/library/include/updater.h"
+    before = open(header, "rb").read()
+    with open(os.path.join(WORK, ".cargo.lock"), "w") as lk:
+        import fcntl
+        fcntl.flock(lk, fcntl.LOCK_EX)
+        p = run(["cargo", "build", "-p", "updater", "--offline", "--target-dir", libdir], cwd="/repo")
+    after = open(header, "rb").read()
+    if after != before:
+        # build.rs regenerated a different header: the checked-in header did not match the Rust source
+        open(header, "wb").write(before)
+        path = chk.save_replay("C15-header-stale.txt", "library/include/updater.h in the tree differs from what cbindgen generates from the current Rust source\n")
+        chk.violations.append({"replay": path, "signature": "header-stale", "why": "checked-in header differs from the Rust definitions"})
+    if p.returncode != 0:
+        chk.problems.append(("infra", "library does not build: " + p.stderr[-800:]))
+        return cov
+    evals = 0
+    samples = []
+    # exported symbols vs what Dart looks up
+    nm = run(["nm", "-D", "--defined-only", os.path.join(libdir, "debug", "libupdater.so")]).stdout
+    exported = set(l.split()[-1] for l in nm.splitlines() if " T " in l and "shorebird_" in l)
+    dump = run([MODEL_BIN, "abi"]).stdout
+    model = {}
+    dart = rust = []
+    for line in dump.splitlines():
+        parts = line.split()
+        if parts[0] == "LAYOUT":
+            model[parts[1]] = dict(kv.split("=") for kv in parts[2:] if "=" in kv)
+        elif parts[0] == "DARTFNS":
+            dart = parts[1:]
+        elif parts[0] == "RUSTFNS":
+            rust = parts[1:]
+    missing = [f for f in dart if f not in exported]
+    evals += len(dart)
+    if missing:
+        path = chk.save_replay("C15-missing-symbols.txt", "symbols looked up by the Dart bindings but not exported by the built library: %s\n" % missing)
+        chk.violations.append({"replay": path, "signature": "missing-symbol", "why": "Dart looks up %s" % missing})
+    if set(rust) != exported:
+        chk.problems.append(("correspondence", "translator's Rust function list %s differs from the symbols exported by the built library %s" % (sorted(rust), sorted(exported))))
+    # C compiler's view of the header vs the model's layout function
+    exe = os.path.join(WORK, "abi_test")
+    c = run(["cc", "-O0", "-g", "-I/repo/library/include", os.path.join(VERIF, "cabi", "abi_test.c"),
+             os.path.join(libdir, "debug", "libupdater.a"), "-lpthread", "-ldl", "-lm", "-o", exe])
+    if c.returncode != 0:
+        chk.problems.append(("correspondence", "C program does not compile against the header / link against the library: " + c.stderr[-800:]))
+        return cov
+    import shutil, tempfile
+    scratch = tempfile.mkdtemp(prefix="verif-abi-", dir="/dev/shm" if os.path.isdir("/dev/shm") else None)
+    iters = "3" if chk.tier == "quick" else "25"
+    try:
+        r = run([exe, os.path.join(scratch, "a"), iters])
+        got = {}
+        results = {}
+        for line in r.stdout.splitlines():
+            parts = line.split()
+            if parts and parts[0] == "LAYOUT":
+                got[parts[1]] = dict(kv.split("=") for kv in parts[2:])
+            elif parts and parts[0] in ("RESULT", "CONST"):
+                results.update(dict(kv.split("=", 1) for kv in parts[1:] if "=" in kv))
+        samples.append({"c_layouts": got, "c_results": results})
+        for name, lay in got.items():
+            evals += 1
+            if model.get(name) != lay:
+                path = chk.save_replay("C15-layout-%s.txt" % name, "struct %s: C compiler sees %s, model layout of the Rust definition is %s\n" % (name, lay, model.get(name)))
+                chk.violations.append({"replay": path, "signature": "layout-" + name, "why": "layout mismatch for " + name})
+        expect = {"error": "-1", "no_update": "0", "installed": "1", "had_error": "2", "bad_patch": "3", "uninit_path_null": "1",
+                  "init": "1", "second_init": "0", "next": "1", "current": "0", "good_paths": iters, "error_results": iters,
+                  "current_after_start": "1", "check": "0", "status": "-1"}
+        for k, v in expect.items():
+            evals += 1
+            if results.get(k) != v:
+                path = chk.save_replay("C15-cabi-%s.txt" % k, "C program: %s=%s, expected %s\nfull output:\n%s" % (k, results.get(k), v, r.stdout[-1500:]))
+                chk.violations.append({"replay": path, "signature": "cabi-" + k, "why": "C ABI run: %s=%s expected %s" % (k, results.get(k), v)})
+        # ownership under valgrind memcheck: no invalid free, nothing definitely lost
+        vg = run(["valgrind", "--leak-check=full", "--errors-for-leak-kinds=definite", "--error-exitcode=9", "-q",
+                  exe, os.path.join(scratch, "b"), iters], timeout=1500)
+        evals += 1
+        vtxt = vg.stderr
+        bad = [l for l in vtxt.splitlines() if "Invalid free" in l or "definitely lost" in l or "Invalid read" in l or "Invalid write" in l or "Mismatched free" in l]
+        cov["valgrind"] = {"exit": vg.returncode, "flagged_lines": bad[:5], "iterations": int(iters)}
+        if vg.returncode == 9 or bad:
+            path = chk.save_replay("C15-valgrind.txt", vtxt[-4000:])
+            chk.violations.append({"replay": path, "signature": "valgrind", "why": "valgrind memcheck reports an invalid free or a definite leak"})
+        if chk.tier == "thorough":
+            asan = os.path.join(WORK, "abi_test_asan")
+            c2 = run(["clang", "-fsanitize=address", "-O0", "-g", "-I/repo/library/include", os.path.join(VERIF, "cabi", "abi_test.c"),
+                      os.path.join(libdir, "debug", "libupdater.a"), "-lpthread", "-ldl", "-lm", "-o", asan])
+            if c2.returncode == 0:
+                a = run([asan, os.path.join(scratch, "c"), "10"], env=dict(ENV, ASAN_OPTIONS="detect_leaks=0"))
+                cov["asan"] = {"exit": a.returncode}
+                if a.returncode != 0 and "AddressSanitizer" in a.stderr:
+                    path = chk.save_replay("C15-asan.txt", a.stderr[-4000:])
+                    chk.violations.append({"replay": path, "signature": "asan", "why": "AddressSanitizer report"})
+    finally:
+        shutil.rmtree(scratch, ignore_errors=True)
+    cov.update(evaluations=evals, distinct_nontrivial=len(dart) + len(got),
+               rule="every symbol the Dart bindings look up (nm -D of the built cdylib), every C-visible struct (sizeof/offsetof from a C compiler vs the Lean layout model), "
+                    "the five constants, and an alloc/free call sequence over every function returning owned memory under valgrind memcheck",
+               samples=samples, exported_symbols=sorted(exported), dart_lookups=dart)
+    return cov
+
+
+SPECIAL = {"codec": codec_check, "abi": abi_check}
